@@ -419,7 +419,7 @@ func checkC14(line string, dist map[string]int) (detail, sig, class string) {
 	}
 }
 
-const c14Timeout = 60 * time.Second
+const c14Timeout = 15 * time.Second
 
 func checkC14Body(line string, dist map[string]int) (detail, sig, class string) {
 	jobs, r := c14Input(line)
